@@ -528,7 +528,8 @@
   (assume (comparator? comparator))
   (assume (hashmap? hashmap1))
   (assume (hashmap? hashmap2))
-  (not (%hashmap<=? comparator hashmap1 hashmap2)))
+  (and (%hashmap<=? comparator hashmap2 hashmap1)
+       (not (%hashmap<=? comparator hashmap1 hashmap2))))
 
 (define hashmap<?
   (case-lambda
@@ -574,7 +575,7 @@
   (assume (comparator? comparator))
   (assume (hashmap? hashmap1))
   (assume (hashmap? hashmap2))
-  (not (%hashmap<? comparator hashmap1 hashmap2)))
+  (%hashmap<=? comparator hashmap2 hashmap1))
 
 ;; Set theory operations
 
